@@ -21,12 +21,12 @@ def run(tier: str, keep: bool = False) -> int:
     famD = (f'Numbered({{ [SoloBase(l, 1, 2) EXCEPT !.closure = c, !.ackInt = 700, !.nakInt = 1300, !.immNak = i] : l \\in {lims}, '
             f'c \\in BOOLEAN, i \\in BOOLEAN }})')
     r.solo("finack", "D", famD, ["tick", "tick400", "poll", "ack"], 10 if q else 12, props,
-           pre=[["md"], ["fd"], ["fd"], ["eof"], ["poll"]], limit=8000 if q else 250000)
-    r.solo("deferred", "D", famD, ["tick", "tick400", "poll", "fd"], 9 if q else 11, props,
-           pre=[["md", "fd"], ["fd"], ["eof"], ["poll"]], limit=8000 if q else 250000)
+           pre=[["md"], ["fd"], ["fd"], ["eof"], ["poll"]], limit=8000 if q else 60000)
+    r.solo("deferred", "D", famD, ["tick", "tick400", "poll", "fd"], 9 if q else 10, props,
+           pre=[["md", "fd"], ["fd"], ["eof"], ["poll"]], limit=8000 if q else 60000)
     famS = (f'Numbered({{ [SoloBase(l, 1, 1) EXCEPT !.closure = c, !.ackInt = 700] : l \\in {lims}, c \\in BOOLEAN }})')
-    r.solo("eofack", "S", famS, ["tick", "tick400", "poll", "nak", "cancel"], 8 if q else 10, props,
-           pre=[["put"], ["poll"], ["poll"], ["poll"]], limit=8000 if q else 250000)
+    r.solo("eofack", "S", famS, ["tick", "tick400", "poll", "nak", "cancel"], 8 if q else 9, props,
+           pre=[["put"], ["poll"], ["poll"], ["poll"]], limit=8000 if q else 60000)
     pair = 'FamAll(2, {1, 3}, {"CRC32"})' if q else 'FamAll(3, {0, 1, 3}, {"CRC32"})'
     r.model("silentK0", pair, K=0, cuts=["sd", "ds"], properties=["RestOrWait"], fair=True)
     r.model("silentK1", "FamAck(2, {1, 3})", K=1, faults=["drop"], cuts=["sd", "ds"], properties=["RestOrWait"], fair=True)
